@@ -156,6 +156,9 @@ def run(ck):
         # deeper / wider trees by simulation
         # all nestings of root + 3 nodes (grandchild groups) for a reduced alphabet
         ck.tlc('SvgDoc', d % (4, '{"line", "circle"}', 3), workers=1, coverage=False, on_case=lambda c: on_case(c, 2 if quick else 1), timeout=3000)
+        # chains of three and four nested groups (root + 4 / + 5 nodes), lines only: what is below a requested group at depth >= 2
+        ck.tlc('SvgDoc', d % (5, '{"line"}', 2), workers=1, coverage=False, on_case=lambda c: on_case(c, 5 if quick else 1), timeout=3000)
+        ck.tlc('SvgDoc', d % (6, '{"line"}', 1), workers=1, coverage=False, on_case=lambda c: on_case(c, 5 if quick else 1), timeout=3000)
         for nn, num in ((5, 6), (7, 3)) if quick else ((5, 60), (7, 40), (9, 10)):
             ck.tlc('SvgDoc', d % (nn, allk, 10), workers=1, coverage=False, simulate=num, depth=2 * nn + 3, on_case=on_case, timeout=3000)
         ck.count('documents', st['n'])
